@@ -190,6 +190,41 @@ def case_samebip(g, rng, tier):
     return {"sx": sx({"kind": Sym("samebip"), "t1": T(t1), "t2": T(t2)}),
             "meta": {"kind": "samebip", "how": how, "ntips": (n // 10) * 10}}
 
+EDIT_OPS = ["reroot", "unroot", "removetips", "collapselen", "collapsesup", "collapsedepth", "resolve", "shuffle",
+            "removesingle", "midpoint", "outgroup", "rotate", "sort"]
+# operations that recompute the branch indexes themselves (Reinit*Indexes at their end)
+SELF_REINIT = {"reroot", "unroot", "removetips", "collapselen", "collapsesup", "collapsedepth", "resolve", "shuffle",
+               "removesingle", "midpoint", "outgroup"}
+
+def case_edit(g, rng, tier):
+    n = rng.randint(4, 30)
+    if rng.random() < 0.04:
+        n = rng.choice([64, 65, 66])
+    t = rand_tree(g, rng, n, lenmode="all")
+    names = leaves(t)
+    op = rng.choice(EDIT_OPS)
+    c = {"kind": Sym("edit"), "tree": T(t), "op": Sym(op), "seed": rng.randrange(1, 2 ** 31)}
+    if op == "reroot":
+        c["i"] = rng.randrange(n_nodes(t))
+    elif op == "removetips":
+        k = rng.randint(1, max(1, n - 3))
+        c["revert"] = rng.random() < 0.3
+        if c["revert"]:
+            k = rng.randint(3, n)
+        c["names"] = rng.sample(names, k)
+    elif op == "collapselen":
+        c["x"] = Fraction(rng.randrange(0, 200), 64); c["root"] = rng.random() < 0.5; c["tips"] = rng.random() < 0.3
+    elif op == "collapsesup":
+        c["x"] = Fraction(rng.randrange(0, 65), 64); c["root"] = rng.random() < 0.5
+    elif op == "collapsedepth":
+        a = rng.randint(0, 4); c["a"] = a; c["b"] = a + rng.randint(0, 4); c["root"] = rng.random() < 0.5; c["tips"] = rng.random() < 0.2
+    elif op == "outgroup":
+        c["names"] = rng.sample(names, rng.randint(1, max(1, n // 3))); c["remove"] = rng.random() < 0.4
+    # ops that recompute their indexes are observed as they leave them (half of the time); the others, and the
+    # other half, after an explicit ReinitIndexes
+    c["reinit"] = (op not in SELF_REINIT) or rng.random() < 0.5
+    return {"sx": sx(c), "meta": {"kind": "edit", "op": op, "reinit": c["reinit"]}}
+
 def load_factor(rng):
     r = rng.random()
     if r < 0.25:
@@ -309,10 +344,10 @@ def case_quartet(g, rng, tier, small=None):
 
 def gen(rng, tier):
     g = Gen(rng)
-    counts = {"quick":    {"index": 130, "samebip": 60, "edgeindex": 90, "hashmap": 90, "qmap": 25, "quartet": 12},
-              "thorough": {"index": 2500, "samebip": 900, "edgeindex": 1500, "hashmap": 1500, "qmap": 300, "quartet": 150},
-              "search":   {"index": 100, "samebip": 50, "edgeindex": 80, "hashmap": 80, "qmap": 20, "quartet": 10}}[tier]
-    makers = {"index": case_index, "samebip": case_samebip, "edgeindex": case_edgeindex, "hashmap": case_hashmap,
+    counts = {"quick":    {"index": 130, "edit": 120, "samebip": 60, "edgeindex": 90, "hashmap": 90, "qmap": 25, "quartet": 12},
+              "thorough": {"index": 2500, "edit": 2500, "samebip": 900, "edgeindex": 1500, "hashmap": 1500, "qmap": 300, "quartet": 150},
+              "search":   {"index": 100, "edit": 100, "samebip": 50, "edgeindex": 80, "hashmap": 80, "qmap": 20, "quartet": 10}}[tier]
+    makers = {"index": case_index, "edit": case_edit, "samebip": case_samebip, "edgeindex": case_edgeindex, "hashmap": case_hashmap,
               "qmap": case_qmap, "quartet": case_quartet}
     out = []
     # the smallest quartet pairs first: taxa {0,1,2,3} against itself
